@@ -90,9 +90,10 @@ func (c *chatHandler) handleLegacyCommand(packet *chat.LegacyChat) error {
 			return nil
 		}
 		if !hasRun {
+			// Not a proxy command: pass it on to the server, as rewritten by the event if it was.
 			return (&chat.Builder{
 				Protocol: c.player.Protocol(),
-				Message:  packet.Message,
+				Message:  "/" + commandToRun,
 				Sender:   c.player.ID(),
 			}).ToServer()
 		}
